@@ -503,6 +503,8 @@ int main(int argc, char ** argv)
               ls >> s;
               src.tplan.push_back(parse_plan_val(s));
             }
+          } else if (tag == "L") {
+            ls >> src.pin_len;   // the pinned position starts a run of that many pinned deviates
           } else if (tag == "E") {
             // deviates of the rejection trials of the beta-spectrum primitives, in order (E-deviate, f-deviate, ...)
             size_t k;
